@@ -14,7 +14,7 @@ import (
 const (
 	exclMapKey      = "K07b-map-key-variance"
 	exclStructWidth = "K07c-struct-width"
-	exclTaggedTag   = "C11-tagged-union-tag"
+	exclTaggedTag   = "C12N1-tagged-union-name-tag" // register entry K38-remainder (shared with C12)
 )
 
 type tvar struct {
@@ -214,13 +214,7 @@ func genProgram(t *rapid.T) (prog.Generated, []string) {
 	s.labels = append(s.labels, labelPool[first:first+nl]...)
 	s.fixTagged = stats.Exclusion(exclTaggedTag)
 	s.taggedCase = rapid.Bool().Draw(t, "tagged-case")
-	if s.fixTagged {
-		nv := rapid.IntRange(1, 2).Draw(t, "variants")
-		s.tagged = Ty{K: "tagged", Name: tagField, Dot: rapid.Bool().Draw(t, "dot")}
-		for i := 0; i < nv; i++ {
-			s.tagged.Fields = append(s.tagged.Fields, Field{Label: variantTags[i], T: s.genVariant(t, rapid.Bool().Draw(t, "vdot"))})
-		}
-	} else if s.taggedCase {
+	if !s.fixTagged && s.taggedCase {
 		s.labels = append([]string{tagField}, s.labels...)
 	}
 	g.s = s
